@@ -164,6 +164,8 @@ func (db *RockDB) BitSetV2(ts int64, key []byte, offset int64, on int) (int64, e
 		return 0, err
 	}
 	if !ok {
+		// the size of an expired bitmap must not be counted for the new one
+		bmSize = 0
 		// convert old data to new
 		table, oldkey, err := convertRedisKeyToDBKVKey(key)
 		if err != nil {
